@@ -225,7 +225,10 @@ def run(tier, seed, want):
                         elif len(r7["samples"]) < 3 and oplan:
                             r7["samples"].append({"compilers": label, "plan": RC.pname(oplan)})
     out = {}
+    from rtc.known import is_known
     for p, r in res.items():
+        # failures not covered by a known finding first: the cap must never cut a new violation in favour of listed ones
+        r["failures"].sort(key=lambda f, p=p: is_known(p, f["what"]))
         out[p] = {"evaluations": r["evaluations"], "distinct_nontrivial": len(r["nontrivial"]), "failures": r["failures"][:60],
                   "samples": r["samples"], "compiled_problems": compiled_ok,
                   "bound": f"{nprob} problems per compiler/pipeline, plans <= {maxlen}, <= {cap} plans per problem",
